@@ -8,3 +8,7 @@ From PV Require Import Base.Prelude Spec.FsSem.
    encoder did not finish (producing the cart failed) left the destination's bytes as they were *)
 Definition holds_C11 (dest : path) (tr : list (op Z)) (dest_same : bool) : bool :=
   safe dest tr && (encoder_done tr || dest_same).
+
+(* the whole recorded trace of a command (possibly several cart writes): nothing is modified while a cart
+   is being encoded *)
+Definition holds_C11_quiet (tr : list (op Z)) : bool := quiet tr.
